@@ -28,6 +28,7 @@ func checkC06(c *Ctx) {
 	c.Rule("C06/R10", "what a /key term is matched against: the sub-name lookup scans all parts of the name in order and takes the first part carrying the key (same rule as C05/R4)")
 	c.Rule("C06/R12", "what a .unit term is matched against (same rule as C04/R5): the base unit, and the unit as written only when one was written")
 	c.Rule("C06/R13", "every sub-expression of an AND/OR/NOT node is compiled into the operator's operand list: no path of the operand loop skips the recursive compilation")
+	c.Rule("C06/R20", "a result the filter rejects is left without measurements: every return of Match.Apply that is not the constant true follows a store to the result's Values")
 	c.Rule("C06/R19", "AND and OR are exactly these words: the bare-word scanner compares the scanned text itself with the two operator words, not a function of it")
 	c.Rule("C06/R18", "every fixed value list filters: the membership test makeProjection returns is appended to the list that is ANDed with the caller's filter (and every field is made: same rule as C07/R17)")
 	c.Rule("C06/R17", "the fixed list a projection filters by is its own (same rule as C09/R8): comparator state — the list's index map, a field's observation map — is per field and written only where that field's values are observed, so projecting cannot widen the list")
@@ -55,6 +56,7 @@ func checkC06(c *Ctx) {
 	c.Under("C09/R8", "C06/R17", func() { c09PerField(c, p) })
 	c06EveryListFilters(c, p)
 	c06OperatorsVerbatim(c, p, "C06/R19")
+	c06ApplyFilters(c, p)
 	c07EveryPartMade(c, p, "C06/R18")
 }
 
